@@ -699,7 +699,15 @@ def check_trunc_wrapper(ctx, F, cfg, fn):
         bad = inner_error_only(sym, paths, D)
         if bad:
             good, why = False, "error exits other than the inner decoder's: %s" % bad[:2]
-        n_some = n_none = 0
+        n_some = n_none = n_whole = 0
+        own_strings = set()
+        PUSH_STR = "heapless::string::String::<N>::push_str"
+
+        def whole_copy(p, val, text):
+            es = [e for e in p.effects if e.tcallee != DESER]
+            return (len(es) == 1 and es[0].callee == PUSH_STR and es[0].args == (val, text) and val[0] == "call" and not val[2] and val[1].split("::")[-1] == "new"
+                    and sym.lookup(p, es[0].term) == S.OK and "String<L>" in (fn.get("output") or ""))
+
         for p in paths:
             r = p.result
             if p.done and p.done[0] == "panic":
@@ -712,12 +720,26 @@ def check_trunc_wrapper(ctx, F, cfg, fn):
             if v == ("ctor", S.NONE, ()) and k == S.NONE:
                 n_none += 1
             elif v[0] == "ctor" and v[1] == S.SOME and k == S.SOME and v[2][0][0] == "call" and v[2][0][1] == TRUNCATE and v[2][0][2] == (sym.proj(opt, S.SOME, 0),):
+                # .. possibly after a whole-text copy was tried and did not fit (that attempt's string is dropped)
+                tries = [e for e in p.effects if e.tcallee != DESER]
+                if all(e.callee == PUSH_STR and len(e.args) == 2 and e.args[1] == sym.proj(opt, S.SOME, 0) and e.args[0] != v[2][0] and sym.lookup(p, e.term) == S.ERR for e in tries):
+                    n_some += 1
+                    own_strings.update(id(e) for e in tries)
+                else:
+                    good, why = False, "the text is copied elsewhere before it is truncated"
+            elif v[0] == "ctor" and v[1] == S.SOME and k == S.SOME and whole_copy(p, v[2][0], sym.proj(opt, S.SOME, 0)):
+                # the whole text copied into a fresh String<L> and the copy succeeded: the text has at most L bytes, and
+                # truncate(s) == s for such a text (floor clamps to s.len(), template clause `clamp-result`)
                 n_some += 1
+                n_whole += 1
+                own_strings.update(id(e) for e in p.effects if e.tcallee != DESER)
             else:
                 good, why = False, "a result is %s when the text is %s" % (S.show(r)[:80], S.short(k) if k else "?")
         if good and not (n_some >= 1 and n_none >= 1):
             good, why = False, "missing the Some / None case"
-        muts = [e for p in paths for e in p.effects if e.tcallee != DESER]
+        muts = [e for p in paths for e in p.effects if e.tcallee != DESER and id(e) not in own_strings]
+        if good and n_whole and n_some == n_whole:
+            good, why = False, "an over-long text is never truncated"
         if good and muts:
             good, why = False, "it builds a string itself (%s)" % S.short_fn(muts[0].callee)
     # truncate is instantiated with the wrapper's own capacity
